@@ -17,6 +17,19 @@ CLAIMED = {
         note='Trusted: Coq kernel + vm_compute, translator rs2v.py, ExtrOcamlBasic extraction, harness; BTreeSet/RangeBounds '
              'contracts; Table7.v transcription of the standards. No axioms.',
         technique='Coq proof: kernel sweep over 48 regenerated rows + list lemmas; model tied by translator and differential correspondence'),
+    'C06': dict(
+        text='Theorem C06_full (Coq, axiom-free): for every symbol size and every byte vector of its data capacity the model of '
+             'encode_error returns k*B bytes such that every interleaved block (data b, b+B, .. then EC b, b+B, ..; the unequal '
+             '156/155 blocks of 144x144 included, the lemma is for arbitrary lengths) vanishes at alpha^1..alpha^k in the '
+             'independently defined field GF(2)[x]/301 -- an LFSR loop invariant proved by induction over the data, not by '
+             'enumeration. C06_generators: the 25 polynomials regenerated from the source equal the products (x+alpha)...(x+alpha^k). '
+             'C06_field: the crate\'s log/antilog arithmetic equals the field on all 256^2 pairs. Model tied to the code by '
+             'correspondence (GF tables exhaustively; encode_error on unit vectors, random data, all sizes) and every '
+             'implementation output is re-checked with independent syndromes.',
+        design_ref='DESIGN.md 6/C06',
+        note='Trusted: Coq kernel + vm_compute, translator (generator table, block set-up), extraction, harness; Spec/GF256.v, '
+             'Spec/RSCode.v as transcription of the standard. No axioms.',
+        technique='Coq proof: loop invariant over GF(256) with ring reasoning (char-2 coefficient morphism), kernel sweeps for tables; differential correspondence'),
 }
 
 PENDING_REASON = 'check not built yet in this round (work proceeds in the order of DESIGN.md section 11); not claimed until its quick command exists'
